@@ -1,5 +1,6 @@
 import DaskModel.Lemmas.SetItemPlan
 import DaskModel.Lemmas.SlicePlan
+import DaskModel.Lemmas.SetItemParse
 /-!
 # C21 — array item assignment equals NumPy assignment (theorems)
 
@@ -29,8 +30,10 @@ list, slice and index array (no size bound):
                           `True` before the block's end;
 * `reversed_value_piece`  a value piece on a reversed axis is read mirrored.
 
-Full statement about `parse_assignment_indices` (`ParseSpec` below) is validated exhaustively by the
-correspondence check for n ≤ 6 and proved here only as concrete instances (`_partial`); the N-d assembly
+* `parse_spec`            `parse_assignment_indices` (slice branch, after `normalize_index`): the reformatted slice
+                          selects the original positions, reversed iff flagged, implied size = selection length.
+
+The N-d assembly
 (broadcast axes, axis offsets between value and array) and the `where` path for full-shape masks are
 validated only.
 -/
@@ -128,9 +131,19 @@ example : reverseValueSlice 5 1 3 = some ⟨some 3, some 1, some (-1)⟩ := by d
 
 /-! ## `parse_assignment_indices` (slice branch) -/
 
-/-- Full statement (as a decidable check per input): the reformatted slice selects the positions of the
-    original slice — in reverse order iff `reversed` — and `implied` is the selection length; the parse
-    fails exactly when `indices` raises. -/
+/-- **Full statement, proved.** For every axis length and every slice, after `normalize_index` the slice
+    branch of `parse_assignment_indices` returns a slice with integer fields and a positive step that selects
+    exactly the positions Python's original slice selects — in reverse order iff the axis is recorded in
+    `reverse` — and the implied size is the number of selected positions. -/
+theorem parse_spec (n : Nat) (s ns : PSlice) (h : normalizeSlice s n = some ns) :
+    ∃ p sel, parseSlice n ns = some p ∧ pySliceIdx n s = some sel ∧
+      pySliceIdx n p.index = some (if p.reversed then sel.reverse else sel) ∧
+      p.implied = (sel.length : Int) ∧ ∃ a b c, p.index = PSlice.ofInts a b c ∧ 0 < c := by
+  obtain ⟨hnorm, hsame⟩ := normalizeSlice_spec h
+  obtain ⟨p, sel, h1, h2, h3⟩ := parseSlice_spec n ns hnorm (normalizeSlice_clamp h)
+  exact ⟨p, sel, h1, by rw [← hsame]; exact h2, h3⟩
+
+/-- decidable per-input form of the same statement, used for the non-vacuity instances below -/
 def parseSpecB (size : Nat) (idx : PSlice) : Bool :=
   match parseSlice size idx, pySliceIdx size idx with
   | some p, some sel =>
@@ -142,14 +155,13 @@ def parseSpecB (size : Nat) (idx : PSlice) : Bool :=
   | none, none => true
   | _, _ => false
 
-def ParseSpec : Prop := ∀ (size : Nat) (idx : PSlice), Normal size idx → parseSpecB size idx = true
-
-/-- proved instances only: `ParseSpec` itself is validated exhaustively for n ≤ 6 by the correspondence
-    check (section `parse`), not proved. -/
-theorem parseSpec_partial :
+/-- non-vacuity: a strided decreasing slice, a full reversal, an empty decreasing slice (the case repaired by
+    fix 2550b44), an increasing strided slice, the empty axis -/
+example :
     parseSpecB 8 ⟨some 7, some 2, some (-2)⟩ = true ∧ parseSpecB 8 ⟨none, none, some (-3)⟩ = true ∧
     parseSpecB 5 ⟨some 1, some 3, some (-1)⟩ = true ∧ parseSpecB 6 ⟨some 1, none, some 2⟩ = true ∧
     parseSpecB 0 ⟨none, none, some (-1)⟩ = true := by
   decide
+example : (parseSlice 8 ⟨some 7, some 2, some (-2)⟩).map (·.index) = some (PSlice.ofInts 3 8 2) := by decide
 
 end Dask.C21
